@@ -4,6 +4,7 @@ import FitModel.FitFormat
 import Driver.DecFrag
 -- @family raw Drv.RawD.hRaw
 -- @family rawdec Drv.RawD.hRawDec
+-- @family rawdech Drv.RawD.hRawDecUsed
 /-!
 `raw b:<hex> [s:<lens>] [fail=<j>]` — `decoder.NewRaw().Decode(r, fn)` over a reader delivering the bytes according
 to the schedule (`bytes.NewReader` without `s:`); `fn` fails at its `j`-th call. Answer: how it ended, the returned
@@ -216,7 +217,8 @@ def rebuildSegs (bs : Bytes) (toks : List String) : Option (List Fit.Raw.Seg × 
 /-- C16 on the implementation, from its itemised answer.
 First half, for EVERY stream: the reported segments continue the stream (`C16_concat`: the bytes the callback
 saw are the stream's bytes at the running offset; their total is at most the returned count, which is at most the
-stream; equal on success) and have the prescribed lengths (`lengthsOK`, the predicate of `C16_lengths`).
+stream; equal on success), have the prescribed lengths (`lengthsOK`, the predicate of `C16_lengths`) and sit where the
+protocol prescribes (`layoutOK` / `layoutClosed`, the predicates of `C16_layout`).
 Second half: whenever the full decoder accepts the stream — every `Decode` succeeds and the sequences it decoded
 cover the stream exactly — the raw decoder accepts it, reports as many sequences and the same ordered series of
 definitions (header byte, architecture, global number, field and developer field definitions) and data messages
@@ -238,6 +240,8 @@ def propRawDec (bs : Bytes) (impl : String) : String :=
           else if rstatus == "ok" && total != n then "fail:count-on-success"
           else if !(chk.all fun c => Fit.FitFormat.slice bs c.1 c.2.length == c.2) then "fail:concat"
           else if !Fit.Raw.lengthsOK rsegs then "fail:lengths"
+          else if !Fit.Raw.layoutOK rsegs then "fail:layout"                         -- `C16_layout`: where each kind of segment sits
+          else if rstatus == "ok" && !Fit.Raw.layoutClosed rsegs then "fail:layout-open-at-end"
           else
             -- second half
             let dtoks := ((d.drop 4).toString.splitOn " ").filter (· ≠ "")
@@ -272,5 +276,16 @@ def hRawDec : Handler := fun r =>
     | .spec => "n/a"
     | .kf => "-"
     | .prop => propRawDec bs r.impl
+
+/-- `rawdech m:<0|1> pre:<hex> b:<hex>`: as `rawdec b:<hex>` with a full decoder that was used before (PeekFileId [+ Discard]
+on `pre`, then Reset onto `b`). C16 quantifies over streams; what a decoder did before does not enter (C07): the model's
+answer and the property are those of `rawdec b:<hex>` — a decoder that carries definitions over from `pre` shows as a
+correspondence difference and as a stream the full decoder accepts and the raw decoder rejects. -/
+def hRawDecUsed : Handler := fun r =>
+  match r.args with
+  | [m, pre, b] =>
+    if (m == "m:0" || m == "m:1") && ((stripPrefix? pre "pre:").bind unhex).isSome then hRawDec { r with args := [b] }
+    else if r.mode == .model then "bad-op" else if r.mode == .kf then "-" else "n/a"
+  | _ => if r.mode == .model then "bad-op" else if r.mode == .kf then "-" else "n/a"
 
 end Drv.RawD
